@@ -176,17 +176,22 @@ fn extract_with<M: FileManager>(man: &mut M, strfmts: &[String], numfmts: &[Stri
                 .errors
                 .iter()
                 .map(|d| match &d.loc {
-                    Location::Full(f) => list(vec![
-                        atom("d"),
-                        st(f.file_name.as_str()),
-                        num(f.offset_lo),
-                        num(f.offset_hi),
-                        num(f.loc_lo.line),
-                        num(f.loc_lo.col.0),
-                        num(f.loc_hi.line),
-                        num(f.loc_hi.col.0),
-                        st(&format!("{:?}", d.message).chars().take(120).collect::<String>()),
-                    ]),
+                    // line and column as the SERIALISED diagnostic carries them (what `bundle_to_diagnostics` hands to the
+                    // node side), the offsets from the location itself
+                    Location::Full(f) => match beff_core::wasm_diag::WasmDiagnosticInformation::from_diagnostic_info(d) {
+                        beff_core::wasm_diag::WasmDiagnosticInformation::KnownFile { file_name, line_lo, col_lo, line_hi, col_hi, .. } => list(vec![
+                            atom("d"),
+                            st(file_name.as_str()),
+                            num(f.offset_lo),
+                            num(f.offset_hi),
+                            num(line_lo),
+                            num(col_lo),
+                            num(line_hi),
+                            num(col_hi),
+                            st(&format!("{:?}", d.message).chars().take(120).collect::<String>()),
+                        ]),
+                        beff_core::wasm_diag::WasmDiagnosticInformation::UnknownFile { current_file, .. } => list(vec![atom("d-unknown"), st(current_file.as_str()), st("serialised-without-location")]),
+                    },
                     Location::Unknown(u) => list(vec![atom("d-unknown"), st(u.current_file.as_str()), st(&format!("{:?}", d.message).chars().take(120).collect::<String>())]),
                 })
                 .collect();
